@@ -96,6 +96,9 @@ type Cfg struct {
 	Keys          [][]byte `json:"keys"`
 	Groups        [][]int  `json:"groups,omitempty"` // groups of key indices forced onto one key hash
 	ParkRotFlush  bool     `json:"park,omitempty"`   // park the post-rotation flush goroutine until released
+	// NoGCDays: configured no_gc_days (used when a request passes a negative value). nil = "every file is old
+	// enough" (-100000), which is what every check but C17 wants.
+	NoGCDays *int `json:"nogcdays,omitempty"`
 }
 
 func (c *Cfg) depth() int {
@@ -142,6 +145,9 @@ func applyCfg(c *Cfg, home string) {
 	conf.BufIOCap = c.BufIOCap
 	conf.FlushInterval = c.FlushInterval
 	conf.NoGCDays = -100000 // every file is old enough (the age rule is C17's subject)
+	if c.NoGCDays != nil {
+		conf.NoGCDays = *c.NoGCDays
+	}
 	conf.MergeInterval = 1 << 20
 	conf.NoMerged = c.NoMerged
 	if c.TreeDump > 0 {
